@@ -9,13 +9,14 @@ commute, whose logicals commute with the stabilizers and pair up as `δ_ij`; `n 
 Rank clause, for all sizes: the generators at all stabilizer locations except the vertex `(0, 0)` and the face `(1, 1)` are independent (`generators_independent`, via a
 triangular family of single-qubit probes) and there are exactly `n − k` of them
 (`generators_count`).  `valid_code` puts everything together through the generic bridge
-`Proofs/Lat2DBridgeB.lean` (`symp (to_bsf a) (to_bsf b) = opAntiCount a b mod 2` for dicts with
-distinct keys; independent sub-family of `n − k` commuting rows ⇒ GF(2) rank `n − k`): the matrices
+`Proofs/OpComm.lean` (`symp (to_bsf a) (to_bsf b) = opAntiCount a b mod 2` for dicts with distinct
+keys ⇒ `CommPairL` of the assembled rows) and `Proofs/Lat2DRankBridge.lean` (operator-level
+independent sub-family of `n − k` generators ⇒ `HasRank (2n) rowsH (n − k)`): the matrices
 that `stabilizer_matrix`, `logicals_x`, `logicals_z` of the generic code model (`Model/Code.lean`,
 C02) assemble from this lattice model form a valid `[[n, k]]` stabilizer code (`ValidCodeL`: all
 four clauses of C01, rank included) for EVERY size of the family.
 -/
-import PanqecVerif.Proofs.Lat2DBridgeB
+import PanqecVerif.Proofs.Lat2DRankBridge
 import PanqecVerif.Proofs.LatToric2DCodeRank
 
 namespace Panqec.C01Toric2DCode
@@ -66,13 +67,15 @@ theorem generators_count (Lx Ly : Nat) (hx : 1 ≤ Lx) (hy : 1 ≤ Ly) :
     the generators, `ω(X_i, Z_j) = δ_ij`, `ω(X_i, X_j) = ω(Z_i, Z_j) = 0`, and the generators
     have GF(2) rank `n − k` -/
 theorem valid_code (Lx Ly : Nat) (hx : 2 ≤ Lx) (hy : 2 ≤ Ly) :
-    stabilizerMatrix (lattice Lx Ly).toCodeData = some (matH (lattice Lx Ly)) ∧
-    logicalsX (lattice Lx Ly).toCodeData = some (matX (lattice Lx Ly)) ∧
-    logicalsZ (lattice Lx Ly).toCodeData = some (matZ (lattice Lx Ly)) ∧
-    ValidCodeL (lattice Lx Ly).toCodeData.n (lattice Lx Ly).toCodeData.k
-      (matH (lattice Lx Ly)) (matX (lattice Lx Ly)) (matZ (lattice Lx Ly)) :=
-  validCode_of_lattice (lattice Lx Ly) (wf Lx Ly hx hy) (commPair Lx Ly hx hy)
+    stabilizerMatrix (lattice Lx Ly).toCodeData = some (lattice Lx Ly).rowsH ∧
+    logicalsX (lattice Lx Ly).toCodeData = some (lattice Lx Ly).rowsX ∧
+    logicalsZ (lattice Lx Ly).toCodeData = some (lattice Lx Ly).rowsZ ∧
+    ValidCodeL (2 * Lx * Ly) 2
+      (lattice Lx Ly).rowsH (lattice Lx Ly).rowsX (lattice Lx Ly).rowsZ := by
+  have h := validCode_of_lattice (lattice Lx Ly) (wf Lx Ly hx hy) (commPair Lx Ly hx hy)
     (selStabs Lx Ly) List.filter_sublist (generators_independent Lx Ly hx hy) ((generators_count Lx Ly (by omega) (by omega)).2)
+  rw [n_formula, k_value] at h
+  exact h
 
 /-- for `Lx, Ly ≥ 2` every stabilizer is the dict of its four distinct wrapped neighbours, in
     delta order, letter `Z` on vertices (even `x`) and `X` on faces -/
@@ -139,7 +142,7 @@ example : getDeformation "XZZX" "z" [1, 0] = none := by decide
 example : IndepGenerators (lattice 2 3) (selStabs 2 3) :=
   generators_independent 2 3 (by decide) (by decide)
 example : (selStabs 2 3).length = 10 := by decide
-example : ValidCodeL 12 2 (matH (lattice 2 3)) (matX (lattice 2 3)) (matZ (lattice 2 3)) :=
-  (valid_code 2 3 (by decide) (by decide)).2.2.2
+example : ValidCodeL 12 2 (lattice 2 3).rowsH (lattice 2 3).rowsX
+    (lattice 2 3).rowsZ := (valid_code 2 3 (by decide) (by decide)).2.2.2
 
 end Panqec.C01Toric2DCode
